@@ -14,8 +14,17 @@
    `NodeAnn`), or the identity of the signer (`ChanUpd`, whose signature is checked against the node id
    *stored in the graph* for that direction). UTXO lookup is not modelled: its synchronous result is
    a parameter of the announcement (`Utxo`); asynchronous lookups (`PendingChecks`) are not modelled.
+   LAYERS. The functions of this file outside `namespace Impl` are the hand-written SPECIFICATION of the
+   handlers (what the 1700 lines of Proofs/Gossip.lean reason about). `namespace Impl` (end of the file) is
+   the MODEL THE DRIVER RUNS and the property theorems are stated about: the same handlers, but every
+   decision (comparison, flag test, tombstone test, replace-vs-reject, staleness cut-off, error class) is a
+   CALL of a definition of Generated/Gossip.lean, which tools/gen_gossip.py re-translates from gossip.rs /
+   processing.rs on every run. Proofs/GossipRefine.lean proves `Impl.f = f` for every handler from small
+   lemmas about the generated definitions, so a changed comparison in the Rust text breaks the refinement
+   and with it every property theorem. `Impl` also holds the rapid-gossip-sync layer (`applySnapshot`).
    No Mathlib; core only. -/
 import LdkModel.Generated.Consts
+import LdkModel.Generated.Gossip
 namespace Ldk.Gossip
 
 /-! ### canonical finite maps -/
@@ -198,29 +207,8 @@ structure Graph where
 
 def Graph.empty : Graph := ⟨SMap.empty, SMap.empty, SMap.empty, SMap.empty⟩
 
-/-- the `LightningError`s of the gossip handlers, by their `err` text -/
-inductive Reject
-  | nodeIdsNotSorted | selfChannel | wrongChain | dupChainValidated | dupNonChainValidated
-  | badSig | recentlyRemoved | utxoUnknownTx | alreadyKnown
-  | dontForward | htlcMaxTooLarge | unknownChannel | htlcMaxAboveCapacity | older | sameTimestamp
-  | noChannelsForNode
-  deriving DecidableEq, Repr
-
-def Reject.name : Reject → String
-  | .nodeIdsNotSorted => "NodeIdsNotSorted" | .selfChannel => "SelfChannel" | .wrongChain => "WrongChain"
-  | .dupChainValidated => "DupChainValidated" | .dupNonChainValidated => "DupNonChainValidated"
-  | .badSig => "BadSig" | .recentlyRemoved => "RecentlyRemoved" | .utxoUnknownTx => "UtxoUnknownTx"
-  | .alreadyKnown => "AlreadyKnown" | .dontForward => "DontForward" | .htlcMaxTooLarge => "HtlcMaxTooLarge"
-  | .unknownChannel => "UnknownChannel" | .htlcMaxAboveCapacity => "HtlcMaxAboveCapacity"
-  | .older => "Older" | .sameTimestamp => "SameTimestamp" | .noChannelsForNode => "NoChannelsForNode"
-
-/-- the `ErrorAction` attached to each error -/
-def Reject.action : Reject → String
-  | .nodeIdsNotSorted | .selfChannel | .utxoUnknownTx | .htlcMaxTooLarge | .htlcMaxAboveCapacity
-  | .noChannelsForNode => "IgnoreError"
-  | .wrongChain | .recentlyRemoved | .dontForward | .unknownChannel => "IgnoreAndLog"
-  | .dupChainValidated | .dupNonChainValidated | .alreadyKnown | .older | .sameTimestamp => "IgnoreDuplicateGossip"
-  | .badSig => "SendWarningMessage"
+-- `Reject` (the `LightningError`s of the gossip handlers with their `ErrorAction`s) is GENERATED from the
+-- Rust text: Generated/Gossip.lean
 
 inductive Outcome
   | accept
@@ -534,5 +522,309 @@ def step (g : Graph) : Op → Graph × Outcome
 def runMsgs (g : Graph) (ms : List Msg) : Graph := ms.foldl (fun g m => (applyMsg g m).1) g
 /-- execute a list of operations -/
 def run (g : Graph) (ops : List Op) : Graph := ops.foldl (fun g o => (step g o).1) g
+
+
+/-! ## the model proper: every decision is a call of generated code (Generated/Gossip.lean) -/
+namespace Impl
+
+/-- `channel_flags` as the harness builds it: bit 0 = direction, bit 1 = disabled -/
+def _root_.Ldk.Gossip.ChanUpd.channelFlags (u : ChanUpd) : Nat :=
+  (if u.dir then 1 else 0) ||| (if u.disabled then 2 else 0)
+/-- `message_flags`: bit 0 must-be-one, bit 1 = dont_forward -/
+def _root_.Ldk.Gossip.ChanUpd.messageFlags (u : ChanUpd) : Nat :=
+  1 ||| (if u.dontForward then 2 else 0)
+/-- chain hashes as small naturals: 0 = the graph's chain -/
+def chainId (ok : Bool) : Nat := if ok then 0 else 1
+/-- length of `excess_data` (the harness never sends any) -/
+def noExcess : Nat := 0
+
+-- mirrors gossip.rs::pre_channel_announcement_validation_check
+def chanAnnPre (g : Graph) (a : ChanAnn) : Option Reject :=
+  if Gen.annIdsUnsorted a.n1 a.n2 then some .nodeIdsNotSorted
+  else if Gen.annSameBitcoinKeys 1 (if a.sameBtc then 1 else 2) then some .selfChannel
+  else if Gen.annChainMismatch (chainId a.chainOk) 0 then some .wrongChain
+  else match g.channels.get a.scid with
+    | some c =>
+      if Gen.annKnownValidated c.capacity then
+        (if Gen.annSameNodes a.n1 a.n2 c.node1 c.node2 then some .dupChainValidated else none)
+      else if Gen.annNoLookup (match a.utxo with | .noLookup => none | _ => some 0) then some .dupNonChainValidated
+      else none
+    | none => none
+
+-- mirrors gossip.rs::add_channel_between_nodes (`utxoValue` = the argument `utxo_value`)
+def addChannelBetweenNodes (g : Graph) (scid : Nat) (c : ChanInfo) (utxoValue : Option Nat) : Graph × Outcome :=
+  match g.channels.get scid with
+  | some old =>
+    if Gen.replaceExisting utxoValue then
+      let nodes := removeChanInNodes g.nodes old scid
+      ({ g with channels := g.channels.insert scid c,
+                nodes := addChanToNode (addChanToNode nodes c.node1 scid) c.node2 scid }, .accept)
+    else (g, .reject .alreadyKnown)
+  | none =>
+    ({ g with channels := g.channels.insert scid c,
+              nodes := addChanToNode (addChanToNode g.nodes c.node1 scid) c.node2 scid }, .accept)
+
+-- mirrors gossip.rs::update_channel_from_announcement / update_channel_from_unsigned_announcement(_intern)
+def applyChanAnn (g : Graph) (a : ChanAnn) : Graph × Outcome :=
+  match chanAnnPre g a with
+  | some r => (g, .reject r)
+  | none =>
+    if a.verify && !a.sigsOk then (g, .reject .badSig)
+    else if Gen.annRecentlyRemoved g.removedChannels.contains g.removedNodes.contains a.scid a.n1 a.n2 then
+      (g, .reject .recentlyRemoved)
+    else match a.utxo with
+      | .unknownTx => (g, .reject .utxoUnknownTx)
+      | .noLookup =>
+        addChannelBetweenNodes g a.scid
+          { node1 := a.n1, node2 := a.n2, capacity := none, d12 := none, d21 := none,
+            recvTime := a.now, hasMsg := a.verify && Gen.annKeepMessage noExcess } none
+      | .value v =>
+        addChannelBetweenNodes g a.scid
+          { node1 := a.n1, node2 := a.n2, capacity := some v, d12 := none, d21 := none,
+            recvTime := a.now, hasMsg := a.verify && Gen.annKeepMessage noExcess } (some v)
+
+-- mirrors gossip.rs::add_channel_from_partial_announcement
+def applyChanPartial (g : Graph) (scid : Nat) (cap : Option Nat) (recv n1 n2 : Nat) : Graph × Outcome :=
+  if Gen.partialIdsUnsorted n1 n2 then (g, .reject .nodeIdsNotSorted)
+  else addChannelBetweenNodes g scid
+    { node1 := n1, node2 := n2, capacity := cap, d12 := none, d21 := none, recvTime := recv,
+      hasMsg := false } none
+
+-- mirrors the closure check_update_latest in gossip.rs::update_channel_internal
+def checkUpdLatest (target : Option UpdInfo) (ts : Nat) : Option Reject :=
+  match target with
+  | some e =>
+    if Gen.updOlder e.lastUpdate ts then some .older
+    else if Gen.updSame e.lastUpdate ts then some .sameTimestamp
+    else none
+  | none => none
+
+-- mirrors the closure check_msg_sanity in gossip.rs::update_channel_internal
+def checkMsgSanity (c : ChanInfo) (u : ChanUpd) : Option Reject :=
+  match c.capacity with
+  | some cap =>
+    if Gen.updCapacityBad cap u.htlcMax then some .htlcMaxAboveCapacity
+    else checkUpdLatest (c.dir (Gen.updDirCheck u.channelFlags)) u.ts
+  | none => checkUpdLatest (c.dir (Gen.updDirCheck u.channelFlags)) u.ts
+
+/-- the `ChannelUpdateInfo` stored by update_channel_internal -/
+def updInfo (u : ChanUpd) : UpdInfo :=
+  { lastUpdate := u.ts, enabled := Gen.updChanEnabled u.channelFlags, cltv := u.cltv, htlcMin := u.htlcMin,
+    htlcMax := u.htlcMax, feeBase := u.feeBase, feeProp := u.feeProp,
+    hasMsg := u.verify && Gen.updKeepMessage noExcess }
+
+def updChan (c : ChanInfo) (u : ChanUpd) : Except Reject ChanInfo :=
+  match checkMsgSanity c u with
+  | some r => .error r
+  | none =>
+    if u.verify && u.signer != c.dirNode (Gen.updDirSigner u.channelFlags) then .error .badSig
+    else .ok (c.setDir (Gen.updDirStore u.channelFlags) (some (updInfo u)))
+
+-- mirrors P2PGossipSync::handle_channel_update (dont_forward) + gossip.rs::update_channel_internal
+def applyChanUpd (g : Graph) (u : ChanUpd) : Graph × Outcome :=
+  if u.verify && Gen.updDontForward u.messageFlags then (g, .reject .dontForward)
+  else if Gen.updChainMismatch (chainId u.chainOk) 0 then (g, .reject .wrongChain)
+  else if Gen.updHtlcMaxTooLarge u.htlcMax then (g, .reject .htlcMaxTooLarge)
+  else match g.channels.get u.scid with
+    | none => (g, .reject .unknownChannel)
+    | some c =>
+      match updChan c u with
+      | .error r => (g, .reject r)
+      | .ok c' => ({ g with channels := g.channels.insert u.scid c' }, .accept)
+
+def updNode (ni : NodeInfo) (n : NodeAnn) : Except Reject NodeInfo :=
+  let stored : NodeAnnInfo := ⟨n.ts, n.payload, n.verify && Gen.nodeAnnShouldRelay noExcess noExcess⟩
+  match ni.ann with
+  | some a =>
+    if Gen.nodeAnnOlder a.lastUpdate n.ts then .error .older
+    else if Gen.nodeAnnSame a.lastUpdate n.ts then .error .sameTimestamp
+    else .ok { ni with ann := some stored }
+  | none => .ok { ni with ann := some stored }
+
+/-- the duplicate pre-check of update_node_from_announcement -/
+def preDup (o : Option NodeAnnInfo) (ts : Nat) : Bool :=
+  match o with
+  | some a => Gen.nodeAnnPreDup a.lastUpdate ts
+  | none => false
+
+-- mirrors gossip.rs::update_node_from_announcement (duplicate pre-check, verify_node_announcement)
+-- and update_node_from_announcement_intern
+def applyNodeAnn (g : Graph) (n : NodeAnn) : Graph × Outcome :=
+  match g.nodes.get n.node with
+  | none => if n.verify && !n.sigOk then (g, .reject .badSig) else (g, .reject .noChannelsForNode)
+  | some ni =>
+    if n.verify && preDup ni.ann n.ts then (g, .reject .sameTimestamp)
+    else if n.verify && !n.sigOk then (g, .reject .badSig)
+    else match updNode ni n with
+      | .error r => (g, .reject r)
+      | .ok ni' => ({ g with nodes := g.nodes.insert n.node ni' }, .accept)
+
+/-- one iteration of the loop over `node.channels` in `node_failed_permanent` -/
+def nodeFailStep (id now : Nat) (st : SMap ChanInfo × SMap NodeInfo × SMap Nat) (scid : Nat) :
+    SMap ChanInfo × SMap NodeInfo × SMap Nat :=
+  match st.1.get scid with
+  | some c =>
+    (st.1.erase scid, removeChanFromNode st.2.1 (Gen.failOtherNode id c.node1 c.node2) scid, st.2.2.insert scid now)
+  | none => st
+
+-- mirrors gossip.rs::node_failed_permanent
+def nodeFailPermanent (g : Graph) (id now : Nat) : Graph :=
+  match g.nodes.get id with
+  | some n =>
+    let st := n.channels.keys.foldl (nodeFailStep id now) (g.channels, g.nodes.erase id, g.removedChannels)
+    { channels := st.1, nodes := st.2.1, removedChannels := st.2.2,
+      removedNodes := g.removedNodes.insert id now }
+  | none => g
+
+def lastUpd (d : Option UpdInfo) : Option Nat := d.map (·.lastUpdate)
+
+/-- the body of the loop of `remove_stale_channels_and_tracking_with_time` -/
+def pruneChan (minT : Nat) (c : ChanInfo) : Option ChanInfo :=
+  let d12 := if Gen.pruneDir12Stale (lastUpd c.d12) minT then none else c.d12
+  let d21 := if Gen.pruneDir21Stale (lastUpd c.d21) minT then none else c.d21
+  if Gen.pruneDirMissing (lastUpd d12) (lastUpd d21) && Gen.pruneAnnOld c.recvTime minT then none
+  else some { c with d12 := d12, d21 := d21 }
+
+def prunedScid (g : Graph) (minT scid : Nat) : Bool :=
+  match g.channels.get scid with
+  | some c => (pruneChan minT c).isNone
+  | none => false
+
+def pruneNode (g : Graph) (minT : Nat) (ni : NodeInfo) : Option NodeInfo :=
+  let chs := ni.channels.filterMap (fun s _ => if prunedScid g minT s then none else some ())
+  if chs.isEmpty && !ni.channels.isEmpty then none else some { ni with channels := chs }
+
+def keepTracking (t : Nat) (time : Nat) : Option Nat :=
+  if Gen.pruneKeepTracking t time then some time else none
+
+-- mirrors gossip.rs::remove_stale_channels_and_tracking_with_time
+def pruneAt (g : Graph) (t : Nat) : Graph :=
+  if Gen.pruneTimeTooLarge t then g
+  else if Gen.pruneTimeTooSmall t then g
+  else
+    let minT := Gen.pruneMinTime t
+    let removed := (g.channels.keys.filter (prunedScid g minT))
+    let rc := removed.foldl (fun m s => m.insert s t) g.removedChannels
+    { channels := g.channels.filterMap (fun _ c => pruneChan minT c),
+      nodes := g.nodes.filterMap (fun _ ni => pruneNode g minT ni),
+      removedChannels := rc.filterMap (fun _ time => keepTracking t time),
+      removedNodes := g.removedNodes.filterMap (fun _ time => keepTracking t time) }
+
+def applyMsg (g : Graph) : Msg → Graph × Outcome
+  | .chanAnn a => applyChanAnn g a
+  | .chanUpd u => applyChanUpd g u
+  | .nodeAnn n => applyNodeAnn g n
+
+def step (g : Graph) : Op → Graph × Outcome
+  | .msg m => applyMsg g m
+  | .chanPartial scid cap recv n1 n2 => applyChanPartial g scid cap recv n1 n2
+  | .failPermanent scid now => (failPermanent g scid now, .done)
+  | .nodeFailPermanent id now => (nodeFailPermanent g id now, .done)
+  | .pruneAt t => (pruneAt g t, .done)
+
+/-- deliver a list of messages -/
+def runMsgs (g : Graph) (ms : List Msg) : Graph := ms.foldl (fun g m => (applyMsg g m).1) g
+/-- execute a list of operations -/
+def run (g : Graph) (ops : List Op) : Graph := ops.foldl (fun g o => (step g o).1) g
+
+/-! ### rapid gossip sync (lightning-rapid-gossip-sync/src/processing.rs) on top of the graph -/
+
+/-- one channel announcement of a snapshot (`cap` = the version-2 funding amount) -/
+structure RgsAnn where
+  scid : Nat
+  cap : Option Nat
+  n1 : Nat
+  n2 : Nat
+  deriving DecidableEq, Repr
+
+/-- one node id of a version-2 snapshot; `flag` = first pubkey byte (parity + detail bits) -/
+structure RgsNode where
+  node : Nat
+  flag : Nat
+  deriving DecidableEq, Repr
+
+/-- one channel update of a snapshot; a field is on the wire only when its flag bit is set -/
+structure RgsUpd where
+  scid : Nat
+  flags : Nat
+  cltv : Nat
+  htlcMin : Nat
+  feeBase : Nat
+  feeProp : Nat
+  htlcMax : Nat
+  deriving DecidableEq, Repr
+
+/-- a snapshot as `update_network_graph_no_std(bytes, now)` sees it -/
+structure Snapshot where
+  latestSeen : Nat
+  now : Option Nat
+  nodes : List RgsNode
+  anns : List RgsAnn
+  dCltv : Nat
+  dMin : Nat
+  dBase : Nat
+  dProp : Nat
+  dMax : Nat
+  upds : List RgsUpd
+  deriving DecidableEq, Repr
+
+/-- the announcements: `add_channel_from_partial_announcement` with the backdated time; an
+    `IgnoreDuplicateGossip` error is skipped, any other error aborts the whole snapshot there -/
+def rgsAnns (g : Graph) (ts : Nat) : List RgsAnn → Graph × Option Reject
+  | [] => (g, none)
+  | a :: t =>
+    let r := applyChanPartial g a.scid a.cap ts a.n1 a.n2
+    match r.2 with
+    | .reject e => if e.action == "IgnoreDuplicateGossip" then rgsAnns r.1 ts t else (r.1, some e)
+    | _ => rgsAnns r.1 ts t
+
+/-- the synthetic node announcement of a modified node: backdated timestamp, the payload the graph held
+    BEFORE the snapshot (rgb/alias are copied from the stored announcement, `[0,0,0]` otherwise) -/
+def rgsNodeMod (g0 : Graph) (ts : Nat) (n : RgsNode) : Option NodeAnn :=
+  if Gen.rgsNodeModified n.flag then
+    some { node := n.node, ts := ts,
+           payload := match (g0.nodes.get n.node).bind (·.ann) with | some a => a.payload | none => 0,
+           verify := false, sigOk := true }
+  else none
+
+/-- the synthetic `channel_update` of one snapshot entry against the current graph; `none` = skipped
+    (incremental update without stored data for that direction) -/
+def rgsUpdMsg (g : Graph) (ts : Nat) (s : Snapshot) (u : RgsUpd) : Option ChanUpd :=
+  let std := Gen.rgsStdFlags u.flags
+  let base : Option UpdInfo :=
+    if Gen.rgsIncremental u.flags then
+      (g.channels.get u.scid).bind (fun c => c.dir (Gen.dirInfoIsTwoToOne u.flags))
+    else some { lastUpdate := 0, enabled := true, cltv := s.dCltv, htlcMin := s.dMin, htlcMax := s.dMax,
+                feeBase := s.dBase, feeProp := s.dProp, hasMsg := false }
+  base.map fun b =>
+    { scid := u.scid, dir := decide (std &&& 1 = 1), disabled := decide (std &&& 2 = 2), ts := ts,
+      cltv := if Gen.rgsHasCltv u.flags then u.cltv else b.cltv,
+      htlcMin := if Gen.rgsHasHtlcMin u.flags then u.htlcMin else b.htlcMin,
+      htlcMax := if Gen.rgsHasHtlcMax u.flags then u.htlcMax else b.htlcMax,
+      feeBase := if Gen.rgsHasFeeBase u.flags then u.feeBase else b.feeBase,
+      feeProp := if Gen.rgsHasFeeProp u.flags then u.feeProp else b.feeProp,
+      chainOk := true, dontForward := false, verify := false, signer := 0 }
+
+def rgsUpdStep (ts : Nat) (s : Snapshot) (g : Graph) (u : RgsUpd) : Graph :=
+  match rgsUpdMsg g ts s u with
+  | some cu => (applyChanUpd g cu).1
+  | none => g
+
+-- mirrors processing.rs::update_network_graph_from_byte_stream_no_std (after parsing)
+def applySnapshot (g : Graph) (s : Snapshot) : Graph × Outcome :=
+  if (match s.now with | some t => Gen.rgsSnapshotStale s.latestSeen t | none => false) then (g, .reject .rgsStale)
+  else
+    let ts := Gen.rgsBackdated s.latestSeen
+    let mods := s.nodes.filterMap (rgsNodeMod g ts)
+    match rgsAnns g ts s.anns with
+    | (g1, some e) => (g1, .reject e)
+    | (g1, none) =>
+      let g2 := mods.foldl (fun g n => (applyNodeAnn g n).1) g1
+      if s.upds.isEmpty then (g2, .done)     -- early return: no pruning either
+      else
+        let g3 := s.upds.foldl (rgsUpdStep ts s) g2
+        (match s.now with | some t => pruneAt g3 t | none => g3, .done)
+
+end Impl
 
 end Ldk.Gossip
